@@ -67,8 +67,15 @@ namespace c19
     // quick: every string of length <= 6 over ALPHA; thorough: <= 8 for the cheap routine families (split/join/trim,
     // split_cmdargs, creader), <= 7 for the expensive ones (memmem, replace, paths, shell); followed by every
     // string of length <= 4 (thorough <= 5) over HI that holds at least one byte >= 0x80
-    static inline int enum_maxlen(bool cheap = true) { return vf::thorough() ? (cheap ? 8 : 7) : 6; }
-    static inline int hi_maxlen() { return vf::thorough() ? 5 : 4; }
+    // -DC19_REDUCED: the second build (-funsigned-char, as on ARM) runs a reduced workload
+#ifdef C19_REDUCED
+    static inline bool reduced() { return true; }
+#else
+    static inline bool reduced() { return false; }
+#endif
+    static inline uint64_t scaled(uint64_t n) { return reduced() ? n / 5 : n; }
+    static inline int enum_maxlen(bool cheap = true) { return reduced() ? 4 : vf::thorough() ? (cheap ? 8 : 7) : 6; }
+    static inline int hi_maxlen() { return reduced() ? 3 : vf::thorough() ? 5 : 4; }
     static inline uint64_t enum_batch() { return vf::thorough() ? 6561 : 729; }
     static inline uint64_t enum_total(bool cheap) { return nstrings(enum_maxlen(cheap)) + nstrings(hi_maxlen(), NHI); }
     static inline uint64_t enum_cases(bool cheap = true) { return (enum_total(cheap) + enum_batch() - 1) / enum_batch(); }
@@ -91,6 +98,18 @@ namespace c19
         if (count)
             vf::count_bulk(n, k);
         return n;
+    }
+
+    // long inputs: a limit such as NAME_MAX, a 16-bit length or a fixed scratch buffer inside a routine only shows on
+    // tokens / components / lines longer than it
+    static const size_t LONG_LENS[6] = {254, 255, 256, 257, 600, 5000};
+    // a run of n non-delimiter characters whose content depends on the position (so a cut or a repeat shows)
+    static inline std::string long_token(size_t n, unsigned salt = 0)
+    {
+        std::string t(n, 'x');
+        for (size_t i = 0; i < n; i++)
+            t[i] = "cdefghijklmnopqrstuvwxyz0123456789"[(i * 7 + i / 34 + salt) % 34];
+        return t;
     }
 
     // the two placements of DESIGN §2: 0 = extent ends at the end of the block (slack on the left),
